@@ -170,8 +170,9 @@ def run_tlc(module, cfg, wd, env=None, workers=1, timeout=1800, simulate=None,
     e["JAVA_TOOL_OPTIONS"] = jto
     if env:
         e.update({k: str(v) for k, v in env.items()})
+    # (-checkpoint 0: the depth-first queue cannot be checkpointed, and TLC would try after 30 minutes)
     cmd = ["timeout", str(timeout), "tlc", "-workers", str(workers), "-metadir", md,
-           "-cleanup", "-noGenerateSpecTE"]
+           "-cleanup", "-noGenerateSpecTE", "-checkpoint", "0"]
     if simulate:
         cmd += ["-simulate", simulate]
     if coverage:
